@@ -12,13 +12,22 @@ MODULES = ["tools", "des", "aes", "mac", "cvv", "pin", "pinblock", "tr31"]
 PURE_BUILTINS = {
     "len", "int", "str", "bytes", "bytearray", "max", "min", "range", "isinstance", "frozenset", "set", "enumerate",
     "iter", "repr", "list", "dict", "tuple", "bool", "abs", "sum", "zip", "sorted", "reversed", "ord", "chr", "hex",
-    "KeyError", "ValueError", "OverflowError", "TypeError",
+    "KeyError", "ValueError", "OverflowError", "TypeError", "IndexError", "Exception",
+    # side-effect free builtins (none of them writes to an argument; `next`, `setattr`, `getattr`, `vars`, `globals`,
+    # `exec`, `eval`, `open`, `print` are deliberately absent)
+    "any", "all", "map", "filter", "divmod", "format", "bin", "oct", "round", "pow", "slice", "memoryview", "type",
+    "callable", "hash", "ascii", "float", "complex", "object", "issubclass",
 }
 # methods of built-in values that do not mutate their receiver
 PURE_METHODS = {
     "hex", "upper", "lower", "ljust", "rjust", "zfill", "encode", "decode", "to_bytes", "from_bytes", "join", "translate",
     "maketrans", "items", "keys", "values", "get", "issubset", "fromhex", "encryptor", "decryptor", "format", "startswith",
     "endswith", "strip", "split", "count", "index", "find", "isdigit", "copy", "auto",
+    "replace", "rstrip", "lstrip", "isalnum", "isascii", "isdecimal", "isnumeric", "isalpha", "isupper", "islower",
+    "casefold", "title", "center", "partition", "rpartition", "splitlines", "removeprefix", "removesuffix", "rsplit",
+    "rfind", "rindex", "bit_length", "bit_count", "swapcase", "capitalize", "expandtabs", "isprintable", "isspace",
+    "issuperset", "isdisjoint", "union", "intersection", "difference", "symmetric_difference",
+    "match", "fullmatch", "search", "group", "groups", "tobytes", "tolist",
 }
 # methods of built-in values that mutate their receiver in place (a write to the receiver's owner)
 INPLACE_METHODS = {"append", "extend", "insert", "remove", "pop", "popitem", "clear", "update", "setdefault", "sort",
